@@ -20,10 +20,12 @@ const vpQuickPrices = 5
 
 func vpMatchPrice() sdkmath.LegacyDec { return vpGridPrice(vpQuickPrices) }
 
-func vpGridPrice(quick int) sdkmath.LegacyDec {
+func vpGridPrice(quick int) sdkmath.LegacyDec { return vpGridPriceN(quick, len(vpPriceGrid)) }
+
+func vpGridPriceN(quick, thorough int) sdkmath.LegacyDec {
 	n := quick
 	if zzvp.Thorough() {
-		n = len(vpPriceGrid)
+		n = thorough
 	}
 	return sdkmath.LegacyMustNewDecFromStr(vpPriceGrid[zzvp.Choose(n)])
 }
@@ -139,7 +141,13 @@ func vpTickOrders(dir OrderDirection, n int) ([]Order, []*BaseOrder) {
 func vpDistribute(dir OrderDirection, n int) {
 	zzvp.Option("no-region-merge")
 	os, bs := vpTickOrders(dir, n)
-	p := vpGridPrice(3) // quick tier: prices 1, 0.5 and 0.01 (the distribution loops fork a lot); thorough: the whole grid
+	// quick tier: prices 1, 0.5 and 0.01 (the distribution loops fork a lot); thorough: the whole grid for two orders,
+	// the first three prices for three orders (three orders on one price take 10-20 minutes)
+	tp := len(vpPriceGrid)
+	if n > 2 {
+		tp = 3
+	}
+	p := vpGridPriceN(3, tp)
 	amt := zzvp.AnySdkInt()
 	total := TotalMatchableAmount(os, p)
 	// the callers' precondition (DistributeOrderAmountToTick): 0 < amt < matchable amount of the group
@@ -236,14 +244,17 @@ func VP_C16_DistributeOrderIndependent() { vpOrderIndependent(2) }
 // from a small grid and the third order and the distributed amount are symbolic. Insertion order vs its reverse.
 func VP_C16_DistributeOrderIndependent3() {
 	zzvp.Option("no-region-merge")
-	dir := Buy
-	if zzvp.AnyBool() {
-		dir = Sell
-	}
-	p := vpGridPrice(2)
-	grid := [][2]int64{{1000, 1000}, {1000, 999}, {300, 700}}
+	// quick tier: sell orders at price 0.5 (the side on which a share can be worth less than one quote unit and its
+	// order is dropped), two amount pairs; thorough: both sides, two prices, six amount pairs
+	dir := Sell
+	p := sdkmath.LegacyMustNewDecFromStr("0.5")
+	grid := [][2]int64{{1000, 1000}, {300, 700}}
 	if zzvp.Thorough() {
-		grid = append(grid, [2]int64{1, 1000000}, [2]int64{100, 100}, [2]int64{12345, 67890})
+		if zzvp.AnyBool() {
+			dir = Buy
+		}
+		p = vpGridPriceN(2, 2)
+		grid = append(grid, [2]int64{1000, 999}, [2]int64{1, 1000000}, [2]int64{100, 100}, [2]int64{12345, 67890})
 	}
 	g := grid[zzvp.Choose(len(grid))]
 	fresh := func(a sdkmath.Int) *BaseOrder { return NewBaseOrder(dir, p, a, OfferCoinAmount(dir, p, a)) }
